@@ -468,6 +468,28 @@ func (w *world) waitDisp(conn, seq int64, stop <-chan struct{}, d time.Duration)
 	}
 }
 
+// waitSendOutcome waits for the outcome of a Send of a real router towards the
+// filtering server: the message is in the dispatch log (accepted), or the sending
+// router holds no connection any more (every connection it opened -- Send may
+// retry once -- was closed by the server, i.e. the server has finished with all
+// of them), or the deadline passes.
+func (w *world) waitSendOutcome(conn, seq int64, r *network.Router) (dispEv, bool, bool) {
+	deadline := time.Now().Add(dispWait)
+	for {
+		if ev, ok, _ := w.find(conn, seq); ok {
+			return ev, true, false
+		}
+		if r.VerifConnCount() == 0 {
+			ev, ok, _ := w.find(conn, seq)
+			return ev, ok, false
+		}
+		if time.Now().After(deadline) {
+			return dispEv{}, false, true
+		}
+		time.Sleep(200 * time.Microsecond)
+	}
+}
+
 func (w *world) openRaw(k int) (network.Conn, error) {
 	switch w.transport {
 	case "tcp":
@@ -647,16 +669,8 @@ func (w *world) runOps(in *input) (outs []outc, discard string) {
 				if cx == nil {
 					return nil, "no context on the sending server"
 				}
-				errCh := make(chan struct{})
-				var once sync.Once
-				if !ctxHandlerSet[w.ctxSrv] {
-					ctxHandlerSet[w.ctxSrv] = true
-					w.ctxSrv.AddErrorHandler(func(si *network.ServerIdentity) { ctxErr(w.ctxSrv) })
-				}
-				ctxErrSub(w.ctxSrv, func() { once.Do(func() { close(errCh) }) })
 				cx.SendRaw(w.si, msg)
-				ev, ok, timeout := w.waitDisp(conn, seq, errCh, dispWait)
-				ctxErrSub(w.ctxSrv, nil)
+				ev, ok, timeout := w.waitSendOutcome(conn, seq, w.ctxSrv.Router)
 				if ok {
 					outs = append(outs, w.dispOut(ev))
 					continue
@@ -664,15 +678,11 @@ func (w *world) runOps(in *input) (outs []outc, discard string) {
 				if timeout {
 					return nil, "context send neither dispatched nor refused"
 				}
-				// let the sending server forget the dead connection before its next send
-				time.Sleep(30 * time.Millisecond)
 				outs = append(outs, outc{Kind: "none"})
 				late = append(late, pending{pos, conn, seq})
 				continue
 			}
 			r := w.routers[p]
-			errCh := make(chan struct{})
-			var once sync.Once
 			if r == nil {
 				var err error
 				r, err = w.newPeerRouter(p)
@@ -681,14 +691,8 @@ func (w *world) runOps(in *input) (outs []outc, discard string) {
 				}
 				w.routers[p] = r
 			}
-			sub := func() { once.Do(func() { close(errCh) }) }
-			routerErrSub(r, sub)
-			_, err := r.Send(w.si, msg)
-			if err != nil {
-				sub()
-			}
-			ev, ok, timeout := w.waitDisp(conn, seq, errCh, dispWait)
-			routerErrSub(r, nil)
+			r.Send(w.si, msg)
+			ev, ok, timeout := w.waitSendOutcome(conn, seq, r)
 			if ok {
 				outs = append(outs, w.dispOut(ev))
 				continue
@@ -696,10 +700,8 @@ func (w *world) runOps(in *input) (outs []outc, discard string) {
 			if timeout {
 				return nil, "peer send neither dispatched nor refused"
 			}
-			// refused: this router is finished (Stop waits for its handling routines);
-			// the next send of this peer starts from a fresh router without connection
-			r.Stop()
-			delete(w.routers, p)
+			// refused: every connection this router opened (Send may retry once) has been
+			// closed by the server and removed from the router's table
 			outs = append(outs, outc{Kind: "none"})
 			late = append(late, pending{pos, conn, seq})
 		case "pdrop":
@@ -721,53 +723,6 @@ func (w *world) runOps(in *input) (outs []outc, discard string) {
 		}
 	}
 	return outs, ""
-}
-
-// error-handler plumbing: Router.AddErrorHandler can only add, so one handler per
-// router forwards to the current subscriber.
-var subMu sync.Mutex
-var subs = map[interface{}]func(){}
-var handlerSet = map[*network.Router]bool{}
-var ctxHandlerSet = map[*onet.Server]bool{}
-
-func routerErrSub(r *network.Router, f func()) {
-	subMu.Lock()
-	if !handlerSet[r] {
-		handlerSet[r] = true
-		r.AddErrorHandler(func(*network.ServerIdentity) {
-			subMu.Lock()
-			g := subs[r]
-			subMu.Unlock()
-			if g != nil {
-				g()
-			}
-		})
-	}
-	if f == nil {
-		delete(subs, r)
-	} else {
-		subs[r] = f
-	}
-	subMu.Unlock()
-}
-
-func ctxErrSub(s *onet.Server, f func()) {
-	subMu.Lock()
-	if f == nil {
-		delete(subs, s)
-	} else {
-		subs[s] = f
-	}
-	subMu.Unlock()
-}
-
-func ctxErr(s *onet.Server) {
-	subMu.Lock()
-	g := subs[s]
-	subMu.Unlock()
-	if g != nil {
-		g()
-	}
 }
 
 // ---------------------------------------------------------------- Coq ------
@@ -1030,7 +985,7 @@ func generate(rng *rand.Rand, tier string) []interface{} {
 		mode string
 		n    int
 	}
-	plans := []plan{{"router-tcp", 200}, {"router-local", 200}, {"router-tls", 60}, {"server-tcp", 50}, {"server-local", 30}}
+	plans := []plan{{"router-tcp", 340}, {"router-local", 340}, {"router-tls", 100}, {"server-tcp", 80}, {"server-local", 50}}
 	maxOps := 22
 	if tier != "quick" {
 		plans = []plan{{"router-tcp", 1500}, {"router-local", 1500}, {"router-tls", 400}, {"server-tcp", 350}, {"server-local", 250}}
